@@ -107,7 +107,7 @@ func init() {
 
 // hevcModelCorrCases: the hostile inputs of the unsuffixed targets, sent to the "#m" targets.
 func hevcModelCorrCases(seed uint64, round, n, total int) []tcase {
-	cs := casesFor([]string{"hevc.ParseSliceHeader", "hevc.ParsePSAndSlice"}, seed, round, n/20)
+	cs := casesFor([]string{"hevc.ParseSliceHeader", "hevc.ParsePSAndSlice"}, seed, round, n/40) // the HEVC models are the slow part of the driver
 	for i := range cs {
 		cs[i].target += "#m"
 	}
